@@ -136,6 +136,29 @@ def main():
                                          what="Taylor propagator coefficients are not 1/k!"))
             break
 
+    # ---- the tables handed out through EvolveConfig are the ones checked above, for EVERY config object: a config whose owner
+    #      rescales its own tables in place (absorbing a step size) must not change what the next config gets
+    from renormalizer.utils import EvolveConfig, EvolveMethod
+    for m in tables:
+        try:
+            c1 = EvolveConfig(EvolveMethod.prop_and_compress_tdrk, rk_solver=m, taylor_order=7)
+            for arr in c1.rk_config.tableau:
+                np.asarray(arr)[...] *= 0.37
+            c1.taylor_config.coeff[...] *= 0.37
+            c2 = EvolveConfig(EvolveMethod.prop_and_compress_tdrk, rk_solver=m, taylor_order=7)
+            fresh = RungeKutta(m)
+            same = all(np.array_equal(np.asarray(x), np.asarray(y)) for x, y in zip(c2.rk_config.tableau, fresh.tableau)) and \
+                np.array_equal(c2.taylor_config.coeff, TaylorExpansion(7).coeff) and \
+                all(np.array_equal(np.asarray(x), np.asarray(y)) for x, y in zip(EvolveConfig().rk_config.tableau, RungeKutta(EvolveConfig().rk_config.method).tableau))
+        except Exception as e:  # noqa
+            run.count("config-isolation-raised:" + type(e).__name__)
+            continue
+        run.count("config-isolation-checked")
+        if not same:
+            run.violation("config:tables-shared-between-EvolveConfig-objects",
+                          dict(method=m, what="scaling the tables of one EvolveConfig in place changed the tableau / Taylor coefficients a NEW EvolveConfig ships"))
+            break
+
     # ---- L1
     l1 = run.l1(["RenoVerif/Props/C19.lean"], ["RenoVerif/Gen/RKProps.lean"])
     gen_ok = l1["build_ok"]
